@@ -53,6 +53,11 @@ REUSE = {"TRIAD/rotmat/NED": ("v1", "v2"), "TRIAD/quaternion/ENU": ("v1", "v2"),
          "SAAM": (), "FAMC": (), "Tilt/quaternion": (), "AQUA.estimate/am": ()}
 for _n in REUSE:
     TABLE[_n + "[reused object]"] = TABLE[_n]
+# the constructor given ONE sample (1-D arrays) with the same options: a secondary entry point with its own code path in several classes
+CTOR1 = ["TRIAD/rotmat/NED", "TRIAD/quaternion/ENU", "Davenport", "QUEST", "FLAE/eig", "FLAE/symbolic", "FLAE/newton", "SAAM", "FAMC", "FQA", "Tilt/quaternion", "Tilt/rotmat",
+         "Tilt/angles"]
+for _n in CTOR1:
+    TABLE[_n + "[constructor, one sample]"] = TABLE[_n]
 TILT_ONLY = {"Tilt/acc-only", "AQUA.estimate/acc", "acc2q"}
 ROUTES = list(TABLE)
 REGIONS = {"general": 150, "generic": 60, "special:level": 13, "special:inverted": 7, "special:vertical": 12, "special:half-turn": 8, "special:identity": 1,
@@ -125,6 +130,7 @@ def nontrivial(case):
 
 def decode(name, val):
     """Turn the estimator's output into the rotation matrix 'E_out' whose convention is given by TABLE."""
+    name = name.split("[")[0]
     if name.endswith("/rpy"):
         a = np.asarray(val, float)
         return (rq.Rz(a[2]) @ rq.Ry(a[1]) @ rq.Rx(a[0])).T
@@ -198,6 +204,17 @@ def specs(dip_deg, seed, q_true=None, sgn=1.0):
     out["am2q/NED"] = (-G, mN(d), lambda a, m: o.am2q(a, m, frame="NED"))
     out["am2angles"] = (G, mN(d), lambda a, m: o.am2angles(a, m))
     out["acc2q"] = (G, mN(d), lambda a, m: o.acc2q(a))
+    # ---- constructor entry point, one 1-D sample
+    ctor = {"TRIAD/rotmat/NED": lambda a, m: F.TRIAD(a, m, v2=mN(d).copy(), frame="NED").A,
+            "TRIAD/quaternion/ENU": lambda a, m: F.TRIAD(a, m, v2=mE(d).copy(), frame="ENU", representation="quaternion").A,
+            "Davenport": lambda a, m: F.Davenport(a, m, magnetic_dip=dip_deg).Q, "QUEST": lambda a, m: F.QUEST(a, m, magnetic_dip=dip_deg).Q,
+            "FLAE/eig": lambda a, m: F.FLAE(a, m, method="eig", magnetic_dip=dip_deg).Q, "FLAE/symbolic": lambda a, m: F.FLAE(a, m, method="symbolic", magnetic_dip=dip_deg).Q,
+            "FLAE/newton": lambda a, m: F.FLAE(a, m, method="newton", magnetic_dip=dip_deg).Q,
+            "SAAM": lambda a, m: F.SAAM(a, m).Q, "FAMC": lambda a, m: F.FAMC(a, m).Q, "FQA": lambda a, m: F.FQA(a, m, mag_ref=mN(d)).Q,
+            "Tilt/quaternion": lambda a, m: F.Tilt(a, m).Q, "Tilt/rotmat": lambda a, m: F.Tilt(a, m, representation="rotmat").Q,
+            "Tilt/angles": lambda a, m: F.Tilt(a, m, representation="angles").Q}
+    for nm in CTOR1:
+        out[nm + "[constructor, one sample]"] = out[nm][:2] + (ctor[nm],)
     # ---- reused objects: built for another dip, used once on unrelated data, references re-assigned, then used on (a, m)
     d0 = dip_deg - 35.0 if dip_deg > 0 else dip_deg + 35.0
     # (the first TRIAD object is built in the other frame: two NED pairs differing only in dip span the same triad)
